@@ -111,3 +111,6 @@ def cases(tier, seed, ctx=None):
     # everything written before the close reaches the client, over TLS as over plain TCP
     for j in range(2 if tier == "quick" else 10):
         yield ("tlsraw", [b"GET /notify HTTP/1.1\r\nHost: h\r\n\r\n", 0, 0, [], 1, 0, 0], "tlsraw-close-from-the-notification")
+    # close() called a second time a little later, while a 12 MiB response is still on its way to a client that reads slowly: the
+    # client still receives all of it
+    yield ("tlsraw", [b"GET /bigtwice HTTP/1.1\r\nHost: h\r\n\r\n", 0, 0, [], 1, 0, 6], "tlsraw-close-again-while-flushing")
